@@ -18,7 +18,9 @@ STRINGS = ['alpha', 'beta', 'x y', '', 'true', 'True', 'false', 'yes', 'no', 'on
            ' lead', 'trail ', 'a: b', '- x', '# c', 'k #c', '[x]', '{y}', '"q"', "'s'", "it's", 'a"b',
            'multi\nline', 'trailing\n', 'tab\there', 'é ü', '日本', ' ', '<<', '=', '!tag', '&a', '*a',
            '%d', '@x', '`b`', '|', '>', '?', '? x', ': y', 'key: value', ',', '-', '--- x', '...',
-           'x' * 90 + ' ' + 'y' * 30, '\x07bell', 'back\\slash', '\U0001F600']
+           'x' * 90 + ' ' + 'y' * 30, '\x07bell', 'back\\slash', '\U0001F600', 'tRUE', 'fALSE', 'truE', 'TRue',
+           'NULL', 'nULL', 'Yes', 'oN', '1.٥', '١٢', '.INF', '.Inf', '.NaN', '+.INF', '1e', '1e+', '0o17', '0b101',
+           '1__0', '_1', '1_', '0.', '.', '..', '+', '-.', '1.2.3', '12e03', '0x', '00', '-0', '+12', '1,000']
 FLOATS = [0.0, -0.0, 1.5, -2.25, 1e22, 1e16, 1.5e-7, 1e-5, 123456789.123, float('inf'), float('-inf'),
           float('nan'), 1.0, 100.0, 5e-324, 1.7976931348623157e308]
 INTS = [0, 1, -1, 7, 42, 10 ** 20, -10 ** 12, 255]
@@ -52,7 +54,9 @@ def gen_value(rng, model, t, depth=3, strings=None):
     if k == 'date':
         return rng.choice(DATES)
     if k == 'path':
-        return pathlib.Path(rng.choice(['/tmp/x', 'rel/p.txt', 'file', 'a b/c', '.', '~', 'true', '12']))
+        return pathlib.Path(rng.choice(['/tmp/x', 'rel/p.txt', 'file', 'a b/c', '.', '~', 'true', '12',
+                                        'run/../shared/data.csv', '/data/current/../archive/in.txt', '../up',
+                                        'a//b', './x', 'dir/']))
     if k == 'any':
         return gen_plain(rng, depth, strings)
     if k == 'seq':
